@@ -113,7 +113,7 @@ impl Builder {
         let r = if edge_keygen && self.rng.chance(1, 4) { self.edge_rng() } else { self.healthy_rng() };
         self.push(Step::KeyGen { slot: local, node: home, kind: Kind::Local, rng: r });
         if family == 1 {
-            let idx = self.rng.usize_below(6);
+            let idx = self.rng.usize_below(9);
             let pem = self.rng.chance(1, 3);
             self.push(Step::KeyPool { slot: secret, family, kind: Kind::Secret, idx, pem });
             self.push(Step::PublicOf { slot: public, from: secret, node: home });
